@@ -1,7 +1,20 @@
 (* C17 - Rotation matrices are proper rotations; local frames are orthonormal.
    Statements only; proofs are in Proofs/AuxR.v.  T := R. *)
-From GM Require Import Proofs.RTac Model.Aux Proofs.AuxR.
+From GM Require Import Proofs.RTac Model.Aux Proofs.AuxR Gen.KernelsGen Proofs.KernelsGenEq.
 Local Open Scope R_scope.
+
+(* The tie by translation: the definitions generated at this run from the CURRENT source text of
+   gaddlemaps/_auxilliary.py (Gen/KernelsGen.v, by harness/pytrans.py) are the model definitions the
+   theorems below are about - for every Scalar instance, hence for R and for binary64. *)
+Theorem C17_model_is_source_rotation : forall (T : Type) (H : Scalar T) (axis : V3 T) (theta c s : T),
+  rotation_matrix_gen axis theta c s = rotation_matrix_cs axis c s.
+Proof. exact (@rotation_matrix_gen_eq). Qed.
+Print Assumptions C17_model_is_source_rotation.
+
+Theorem C17_model_is_source_frame : forall (T : Type) (H : Scalar T) (p0 p1 p2 : V3 T),
+  calcule_base_gen p0 p1 p2 = rmap frame_tuple (calcule_base p0 p1 p2).
+Proof. exact (@calcule_base_gen_eq). Qed.
+Print Assumptions C17_model_is_source_frame.
 
 Theorem C17_rotation_proper : forall (axis : V3 R) (theta : R), axis <> vzero ->
   exists M, rotation_matrix axis theta = Ok M /\
